@@ -16,11 +16,67 @@ import os
 import operator
 import random as pyrandom
 import re
+import time
 import warnings
 
+import vlib
 from vlib import cz, czl, cnat, cnatl, cbool, clist, copt, cstr
 
 MAX_COQ_NODES = 260        # larger trees are only checked by the Python differential
+GEN = os.path.join(vlib.COQ, "Gen", "C12_gen.v")
+
+
+def regen(repo=None, typecheck=True):
+    """Tie (T): regenerate coq/Gen/C12_gen.v from the working tree's deap/gp.py (harness/c12_py2coq.py).
+    A function the translator refuses is emitted as the hand model; so is one whose generated definition does not
+    type-check (the translator must never make the build fail on a source it did not understand).
+    Returns (ok, message, status) -- status: regenerated definition -> None (translated) | Refuse."""
+    import c12_py2coq
+    repo = repo or vlib.REPO
+    forced = {}
+    status = {}
+    for _ in range(len(c12_py2coq.gen_names()) + 1):
+        try:
+            text, status = c12_py2coq.translate_repo(repo, forced)
+        except Exception as e:  # noqa  (a translator crash is a refusal of everything: fail closed)
+            r = c12_py2coq.Refuse("Module", "translator error %s: %s" % (type(e).__name__, e))
+            text, status = c12_py2coq.translate_source("\x00")      # does not parse: all placeholders
+            status = {k: r for k in status}
+        with vlib.BuildLock():
+            os.makedirs(os.path.dirname(GEN), exist_ok=True)
+            old = open(GEN).read() if os.path.exists(GEN) else None
+            if old != text:
+                with open(GEN, "w") as f:
+                    f.write(text)
+        if not typecheck or all(v is not None for v in status.values()):
+            break
+        ok, out = vlib.make_targets(["Gen/C12_gen.vo"], timeout=1200)
+        for attempt in range(2):
+            if ok or "Error" in out:
+                break
+            time.sleep(10)                       # make died without a Coq error (killed): not a verdict
+            ok, out = vlib.make_targets(["Gen/C12_gen.vo"], timeout=1200)
+        if ok:
+            break
+        m = re.search(r'File "\./Gen/C12_gen\.v", line (\d+)', out)
+        if not m:
+            break                                # the failure is elsewhere: reported by build_props
+        line = int(m.group(1))
+        culprit = None
+        for k, l in enumerate(text.splitlines(), 1):
+            d = re.match(r"Definition (gen_\w+)", l)
+            if d and k <= line:
+                culprit = d.group(1)
+        if culprit is None or culprit in forced or status.get(culprit, 1) is not None:
+            break
+        forced[culprit] = c12_py2coq.Refuse("FunctionDef", "the generated definition does not type-check: %s"
+                                            % " ".join(out[m.end():m.end() + 300].split()))
+    done = [k for k, v in status.items() if v is None]
+    refused = ["%s (%s)" % (k, v) for k, v in status.items() if v is not None]
+    msg = "regenerated: %s" % (", ".join(done) or "nothing")
+    if refused:
+        msg += "; translator refused: " + "; ".join(refused)
+    return bool(done), msg, status
 
 
 # ----------------------------------------------------------------------------
@@ -393,6 +449,37 @@ def main(run):
                         "arguments are renamed to fresh names",
                         "primitive functions are pure"]
     run.build_props()
+    # ---- tie (T): regenerate Gen/C12_gen.v from the working tree, re-prove `regenerated = model` and the theorems
+    gen_check = "check"
+    gen_requires = ()
+    ok, msg, status = regen()
+    refused = {k: v for k, v in status.items() if v is not None}
+    tie_cov = {"regenerated_functions": [k for k, v in status.items() if v is None],
+               "translator_refused": {k: str(v) for k, v in refused.items()}}
+    for k, v in refused.items():
+        run.notes.append("tie: correspondence-only (translator refused %s at line %s in %s: %s)" % (v.node, v.line, k, v.why))
+    if ok:
+        gen_ok = run.build_props(props="Props/C12_gen.v")
+        if gen_ok:
+            gen_check = "check_both"
+            gen_requires = ("From DV Require Import Gen.C12_gen.",)
+            run.notes.append("tie: regenerated (%s)" % ", ".join(tie_cov["regenerated_functions"]))
+            tie_cov["tie"] = ("translation (regenerated definitions proved equal to the hand model: %s) + correspondence%s"
+                              % (", ".join(tie_cov["regenerated_functions"]),
+                                 "; correspondence-only for " + ", ".join(sorted(refused)) if refused else ""))
+            run.trusted.append("translator harness/c12_py2coq.py and its signature table (source text of deap/gp.py -> "
+                               "coq/Gen/C12_gen.v) with the run-time vocabulary and object layer coq/Model/C12_GenRt.v; the "
+                               "regenerated definitions are proved equal to the hand model (Proofs/C12_gen_equiv.v) and "
+                               "evaluated against the implementation on every run")
+        else:
+            tie_cov["tie"] = "translator succeeded but the regenerated definitions are no longer (provably) the model"
+            try:        # keep the offending text for the replay
+                with open(os.path.join(run.rundir, "C12_gen.v.broken"), "w") as f:
+                    f.write(open(GEN).read())
+            except OSError:
+                pass
+    else:
+        tie_cov["tie"] = "correspondence-only (%s)" % msg
     rng = run.rng
     defs = Defs()
     groups = {}          # group -> (terms, cases)
@@ -595,6 +682,23 @@ def main(run):
     def coq_tree(spec, nodes):
         return clist([defs.name("n", spec.c_node(n)) for n in nodes])
 
+    def observe_code(tree, pset):
+        """the code string gp.compile hands to eval (the name `eval` is bound in deap.gp for this one call)"""
+        seen = []
+
+        def spy(code, *a):
+            seen.append(code)
+            return eval(code, *a)
+
+        gp.eval = spy
+        try:
+            gp.compile(tree, pset)
+        except Exception:  # noqa -- the evaluation itself is judged elsewhere
+            pass
+        finally:
+            del gp.eval
+        return seen[0] if len(seen) == 1 and isinstance(seen[0], str) else None
+
     def check_tree(spec, tree, source, nargs_tuples, adf=None, coq=True):
         """All clauses of the statement on one tree of one primitive set (adf: name -> (nodes, spec))."""
         nodes = list(tree)
@@ -709,6 +813,10 @@ def main(run):
             toks = [t for t in re.split("[ \t\n\r\f\v(),]", s) if t != ""]
             add("str", "CStr %s %s %s %s" % (ps, tl, cstr(s), clist([cstr(t) for t in toks])), case, nontrivial)
             add("read", "CRead subs %s %s (Some %s)" % (ps, cstr(s), coq_tree(spec, list(t2))), case, nontrivial)
+            if adf is None and stats["coq_trees"] % 3 == 0:
+                code = observe_code(tree, spec.pset)
+                if code is not None:
+                    add("code", "CCode %s %s %s" % (ps, tl, cstr(code)), case, nontrivial)
             if all_z and adf is None and spec.zeval:
                 cx = defs.name("cx", spec.c_ctx())
                 rl = clist(["(%s, %s)" % (czl([int(x) for x in tup]), "None" if z == "None" else "Some %s" % z) for tup, z in runs])
@@ -1544,9 +1652,63 @@ def main(run):
     finally:
         gp.random = saved_random
 
-    run.extra_cov = {"trees": stats["trees"], "trees_also_in_coq": stats["coq_trees"], "max_nodes": stats["max_nodes"],
+    def search(run_):
+        """DESIGN 3: an obligation (e.g. regenerated = model) or the correspondence broke and the regular cases gave no
+        failing input: run the property oracle (no Coq cases) on a larger exhaustive scope and on fresh random trees."""
+        gp.random = pyrandom.Random(run.seed * 7919 + 17)
+        t_end = time.time() + run.scale(45, 500)
+        n0 = len(run.oracle_viol)
+        tried = 0
+        try:
+            for nodes in forests(1, nmax + 1):
+                if time.time() > t_end or len(run.oracle_viol) > n0:
+                    break
+                if len(nodes) == nmax + 1:
+                    tried += 1
+                    check_tree(ex, gp.PrimitiveTree(nodes), "search:exhaustive<=%d" % (nmax + 1), ex_tuples, coq=False)
+            while time.time() < t_end and len(run.oracle_viol) == n0:
+                sp = rng.choice(specs)
+                tree, src = gen_tree(sp)
+                if tree is not None and len(tree) <= 400:
+                    tried += 1
+                    check_tree(sp, tree, "search:" + src, grid(sp, 3), coq=False)
+        finally:
+            gp.random = saved_random
+        run.notes.append("search after a broken obligation / correspondence: %d further trees given to the oracle, %d violations"
+                         % (tried, len(run.oracle_viol) - n0))
+
+    run.search_fn = search
+
+    run.extra_cov = {"tie": tie_cov.get("tie"), "regenerated_functions": tie_cov["regenerated_functions"],
+                     "translator_refused": tie_cov["translator_refused"], "trees": stats["trees"], "trees_also_in_coq": stats["coq_trees"], "max_nodes": stats["max_nodes"],
                      "max_height": stats["max_height"], "compiled_evaluations": stats["evals"], "roundtrips": stats["roundtrips"],
                      "by_set": stats["by_set"], "by_source": stats["by_source"]}
     pre = defs.preamble() + "Definition subs := %s.\n" % C_SUBS
+    any_fail = False
     for gname, (terms, cases) in groups.items():
-        run.correspond(gname, "C12", terms, cases, preamble=pre, shard=150)
+        failing = run.correspond(gname, "C12", terms, cases, check=gen_check, requires=gen_requires, preamble=pre, shard=150)
+        if failing and gen_check == "check_both" and not any_fail:
+            # who disagrees with the implementation: the hand model, or the regenerated definitions (a translator fault)?
+            any_fail = True
+            sub = failing[:20]
+            for g, chk in (("diagnosis_model", "check"), ("diagnosis_regenerated", "check_gen")):
+                bad = run.correspond(g, "C12", [terms[i] for i in sub], [cases[i] for i in sub], check=chk,
+                                     requires=gen_requires, preamble=pre, shard=150)
+                run.notes.append("diagnosis (%s): of %d disagreeing cases, %s disagrees on %d" % (gname, len(sub), chk, len(bad)))
+                run.corr_groups.pop(g, None)
+            run.disagreements = [d for d in run.disagreements if d.get("group") not in ("diagnosis_model", "diagnosis_regenerated")]
+    if gen_check != "check_both" and ok:
+        # translated but not provably the model: do the regenerated definitions at least agree with the implementation?
+        rc, out = vlib.coqc_file(GEN, cwd=vlib.COQ)
+        if rc == 0:
+            n_bad = 0
+            for gname, (terms, cases) in groups.items():
+                bad = run.correspond("diagnosis_regenerated", "C12", terms[:300], cases[:300], check="check_gen",
+                                     requires=("From DV Require Import Gen.C12_gen.",), preamble=pre, shard=150)
+                n_bad += len(bad)
+            run.corr_groups.pop("diagnosis_regenerated", None)
+            run.disagreements = [d for d in run.disagreements if d.get("group") != "diagnosis_regenerated"]
+            run.notes.append("diagnosis: the regenerated definitions (not provably equal to the model) disagree with the "
+                             "implementation on %d sampled cases" % n_bad)
+        else:
+            run.notes.append("diagnosis: the regenerated definitions do not compile: " + out[-400:])
